@@ -325,3 +325,46 @@ func regexpCache(re string) *regexp.Regexp {
 	reCache[re] = r
 	return r
 }
+
+func (c *Ctx) stdLabels(in ssa.Instruction) []string {
+	ev, _ := c.Std()
+	return ev.Label(in)
+}
+
+// obNeverH: after the trigger, under assumption H (with one-step path
+// sensitivity), no instruction that may produce a forbidden label executes.
+func (c *Ctx) obNeverH(what string, f *ssa.Function, trig func(ssa.Instruction) bool, forbid []string, H ...string) {
+	var trigs []ssa.Instruction
+	allInstrs(f, func(in ssa.Instruction) {
+		if trig(in) {
+			trigs = append(trigs, in)
+		}
+	})
+	_, s := c.Std()
+	for _, t := range trigs {
+		t := t
+		v := RunPend(f, PendRule{
+			Trig: func(in ssa.Instruction) bool { return in == t },
+			Forbid: func(in ssa.Instruction) bool {
+				if _, ok := in.(*ssa.Defer); ok {
+					return false
+				}
+				return hasAny(s.InstrMay(in), forbid...)
+			},
+			SkipEdge: c.F.SkipUnder(H...),
+			PhiOK:    c.F.PhiFeasible(H...),
+		})
+		// the trigger itself carries a forbidden label when it is e.g. the Rcpt call: ignore self-hits at the moment of triggering
+		var real []PathViolation
+		for _, x := range v {
+			if x.At != t || x.From != t {
+				real = append(real, x)
+			}
+		}
+		d := ""
+		if len(real) > 0 {
+			d = fmt.Sprintf("under {%s} after %s the path reaches %s", strings.Join(H, " && "), c.P.InstrPos(t), c.P.InstrPos(real[0].At))
+		}
+		c.R.Ob(c.siteKey(t, what), c.P.InstrPos(t), len(real) == 0, d)
+	}
+}
